@@ -289,6 +289,9 @@ func (s *ShapeIndexIterator) Prev() bool {
 
 // End positions the iterator at the end of the index.
 func (s *ShapeIndexIterator) End() {
+	if !s.index.IsFresh() {
+		s.index.maybeApplyUpdates()
+	}
 	s.position = len(s.index.cells)
 	s.refresh()
 }
